@@ -609,7 +609,7 @@ def extracted(case):
 
 
 def gen_validate(rng, tier):
-    n = 330 if tier == "quick" else 6000
+    n = 700 if tier == "quick" else 6000
     cases = []
     # constructor checks of _MessageSerializer
     for key in BAD_KEYS + ["x"]:
@@ -938,7 +938,7 @@ STEPS = ["default_ok", "default_bad", "logger_ok", "logger_bad", "tb_default", "
 
 
 def gen_harness(rng, tier):
-    n = 140 if tier == "quick" else 2500
+    n = 220 if tier == "quick" else 2500
     cases = []
     for deco in ("capture", "validate"):
         for outcome in ("pass", "fail", "error", "skip"):
